@@ -60,6 +60,8 @@ class CallerData(oracles.Monitor):
 
 class C13(Prop):
     pid = "C13"
+    quick = {"seeds": 1500, "wall_cap": 90, "chunk": 16}
+    thorough = {"seeds": 30000, "wall_cap": 1500, "chunk": 32}
     level = "exploration"
     rule = ("one case = one seeded history of 2-9 ops drawn from {integrate(), integrate(t) incl. no-op at the current time, set dt/rtol/atol/method/tf, "
             "set_kick_vars, integrate with events, faulting integrate (rhs/event/callback raise), reset}.  Twin worlds: (a) the same history run twice "
@@ -70,8 +72,6 @@ class C13(Prop):
     assumptions = ["counters are excluded from the reset-vs-fresh comparison (a fresh system has spent one rhs call on its shape probe; C20 checks counters)",
                    "split-vs-whole: rounding level (64*n*eps) for fixed-step explicit/splitting methods when the two grids coincide, otherwise within 200*(atol+rtol*|y|)*steps*amplification",
                    "a reset system keeps its current method/tolerances/kick mask/tf and restores the constructor's dt"]
-    quick = {"seeds": 400, "wall_cap": 80, "chunk": 8}
-    thorough = {"seeds": 12000, "wall_cap": 1200, "chunk": 16}
 
     def monitors(self, scn):
         return [SolProbe(), CallerData("C13")]
